@@ -111,7 +111,21 @@ class CompilerPolicy(symex.Policy):
                 k = sum(1 for e in st.trace if e[0] == "parse")
                 st.event("parse", k, m, tuple(render(a) for a in args[1:]))
                 dty = t.get("dty", "")
-                return [(st, ok(("tup", (child_prog(k, m), child_ast(k)))))]
+                cp = child_prog(k, m)
+                # a level function that receives an already parsed node (parse_turnary_expression(lhs_node, ..)) reports that node's
+                # identifiers as well: its own template is checked for exactly that (induction over the callee)
+                extra = []
+                for a in args[1:]:
+                    if a[0] == "adt" and a[1] == CPROG and a[3] is not None:
+                        d = a[3][1]
+                        if d[0] == "adt" and d[3] is not None and d[3][1][0] == "set":
+                            extra.extend(d[3][1][1])
+                if extra:
+                    det = cp[3][1]
+                    items = tuple(sorted(set(det[3][1][1]) | set(extra), key=repr))
+                    det2 = ("adt", det[1], det[2], (det[3][0], ("set", items), det[3][2]), det[4])
+                    cp = ("adt", cp[1], cp[2], (cp[3][0], det2), cp[4])
+                return [(st, ok(("tup", (cp, child_ast(k)))))]
             if m == "new_label":
                 n = sum(1 for e in st.trace if e[0] == "label")
                 st.event("label", n)
